@@ -82,10 +82,10 @@ func multiMasks(n int) []uint32 {
 	add(all)
 	for k := 1; k < n; k++ {
 		low := uint32(1)<<uint(k) - 1
-		add(low)                // k uncompressed keys first
-		add(low << uint(n-k))   // k uncompressed keys last
-		add(all &^ low)         // k compressed keys first
-		var spread uint32       // every other key, k of them
+		add(low)              // k uncompressed keys first
+		add(low << uint(n-k)) // k uncompressed keys last
+		add(all &^ low)       // k compressed keys first
+		var spread uint32     // every other key, k of them
 		for i, c := 0, 0; i < n && c < k; i += 2 {
 			spread |= 1 << uint(i)
 			c++
